@@ -248,6 +248,109 @@ func vpH_C18_equivalent_values() {
 	vpReach("end")
 }
 
+// vpC18SetList / vpC18GetList: the list-valued merged properties, through the struct's own fields
+func vpC18List(x Item, name string, set bool, v ItemCollection) ItemCollection {
+	var out ItemCollection
+	obj := func(o *Object) {
+		var p *ItemCollection
+		switch name {
+		case "To":
+			p = &o.To
+		case "Bto":
+			p = &o.Bto
+		case "CC":
+			p = &o.CC
+		case "BCC":
+			p = &o.BCC
+		case "Audience":
+			p = &o.Audience
+		case "Tag":
+			p = &o.Tag
+		}
+		if p != nil {
+			if set {
+				*p = v
+			}
+			out = *p
+		}
+	}
+	switch c := x.(type) {
+	case *Collection:
+		if name == "Items" {
+			if set {
+				c.Items = v
+			}
+			return c.Items
+		}
+	case *CollectionPage:
+		if name == "Items" {
+			if set {
+				c.Items = v
+			}
+			return c.Items
+		}
+	case *OrderedCollection:
+		if name == "OrderedItems" {
+			if set {
+				c.OrderedItems = v
+			}
+			return c.OrderedItems
+		}
+	case *OrderedCollectionPage:
+		if name == "OrderedItems" {
+			if set {
+				c.OrderedItems = v
+			}
+			return c.OrderedItems
+		}
+	}
+	_ = OnObject(x, func(o *Object) error { obj(o); return nil })
+	return out
+}
+
+// both sides hold lists that the library's equality holds equal but that are not the same lists
+// (members in another order, an id against the object it names, http against https): from's list wins
+func vpH_C18_equivalent_lists() {
+	tname := vpC18Types[vpChoice(len(vpC18Types))]
+	ti := vpTypeIndex(tname)
+	names := []string{"To", "Bto", "CC", "BCC", "Audience", "Tag"}
+	switch tname {
+	case "Collection", "CollectionPage":
+		names = append(names, "Items")
+	case "OrderedCollection", "OrderedCollectionPage":
+		names = append(names, "OrderedItems")
+	}
+	name := names[vpChoice(len(names))]
+	i1, i2 := IRI("https://h.ex/one"), IRI("https://h.ex/two")
+	var a, b ItemCollection
+	switch vpChoice(4) {
+	case 0:
+		a, b = ItemCollection{i1, i2}, ItemCollection{i2, i1}
+	case 1:
+		a, b = ItemCollection{i1}, ItemCollection{&Object{ID: i1, Type: NoteType, Name: NaturalLanguageValues{{Ref: NilLangRef, Value: Content("n")}}}}
+	case 2:
+		a, b = ItemCollection{i1, i2}, ItemCollection{IRI("http://h.ex/one"), i2}
+	default:
+		a, b = ItemCollection{&Object{ID: i1, Type: NoteType}, i2}, ItemCollection{i1, &Object{ID: i2, Type: NoteType}}
+	}
+	to, from := vpNew(ti), vpNew(ti)
+	vpSetField(to, 0, 0, 'i')
+	vpSetID(from, to.GetID())
+	vpC18List(to, name, true, a)
+	vpC18List(from, name, true, b)
+	cell := tname + "." + name
+	_, err := CopyItemProperties(to, from)
+	vpAssert("equivalent-lists/ok/"+cell, err == nil)
+	got := vpC18List(to, name, false, nil)
+	vpAssert("equivalent-lists/from-wins/"+cell, len(got) == len(b))
+	if len(got) == len(b) {
+		for i := range b {
+			vpAssert("equivalent-lists/from-wins/"+cell, vpEqItem(got[i], b[i]))
+		}
+	}
+	vpReach("end")
+}
+
 func vpW_C18_twin() {
 	to := &Object{ID: vpMkIRI('i'), Type: NoteType}
 	from := &Object{ID: to.ID, Type: NoteType}
